@@ -23,6 +23,12 @@
      l.199-203  with ThreadPoolExecutor(1): run_in_executor; while (await q.get()) is not _DONE: yield; await future
      l.251-256  async _queue_elements (to_sync_iter), same shape
      l.258-266  q = queue.Queue(); pool.submit; while q.get() is not _DONE: yield; finally future.result()
+   Since fix F10 (23b50d7) the to_async_iter producer stores the source's exception in a
+   side slot (`errors`) and returns normally; the consumer re-raises the slot after
+   `await future`.  In the model `pst` IS that slot (PFailed e = the exception object the
+   source raised; for to_sync_iter it is the exception carried by the executor future) and
+   `futdone`/`afut` only say "the worker's function has ended / the loop knows it": the step
+   structure, the gates and every observation are unchanged, so the model reads the same.
    Modelled, not verified: asyncio.Queue / queue.Queue (FIFO lists), the loop's
    thread-safe ready queue (FIFO list of callbacks), concurrent.futures.Future
    and asyncio.wrap_future (futdone / afut flags), ThreadPoolExecutor(1)
@@ -101,7 +107,8 @@ Record state := mkSt {
   ready : list cb;           (* loop's thread-safe ready queue (to_async_iter) *)
   queue : list item;         (* asyncio.Queue / queue.Queue *)
   consumed : list nat;       (* ghost: elements yielded to the consumer, in order *)
-  pst : pstat;               (* how the producer function ended *)
+  pst : pstat;               (* how the source ended: PFailed e carries the source's own exception object
+                                (the `errors` slot of to_async_iter / the executor future's exception of to_sync_iter) *)
   futdone : bool;            (* executor future completed *)
   afut : bool;               (* asyncio future (wrap_future) completed *)
   cst : cstat;
